@@ -28,6 +28,10 @@ import json, random
 LANGS = ["python", "javascript", "typescript", "java", "go", "c", "php"]
 EXT = {"python": ".py", "javascript": ".js", "typescript": ".ts", "java": ".java", "go": ".go", "c": ".c", "php": ".php"}
 WORDS = ["", "a", "ab", "xy", "q r", "z9", "lian"]
+# string constants with escape sequences and embedded quotes (rendered with \\n \\t \\" \\\\ in every language; a
+# PHP double-quoted literal with an escape in the middle is a multi-part `encapsed_string`)
+SPECIAL_WORDS = ["a\nb", "say \"hi\" now", "it's", "t\tu\\v", "x\ny\tz", "\"q\"", "a\\", "l1\nl2\nl3", "don't \"x\""]
+SPECIAL_CHARS = set("\n\t\"'\\")
 FIELDS = ["fa", "fb", "fc"]
 ARITH = ["add", "sub", "mul", "mod"]
 CMPS = ["lt", "le", "gt", "ge", "eq", "ne"]
@@ -41,6 +45,11 @@ class Gen:
         self.size = size
         self.n = 0
         self.concat = self.r.random() < 0.6      # C has no concatenation operator: 40 % of the programs avoid it
+        self.use_div = self.r.random() < 0.22    # integer division exists in Python, Java, Go, C only
+        self.paren = "min" if self.r.random() < 0.5 else "full"   # minimal (precedence) vs full parenthesisation
+        # 40 % of the programs use none of the renderings the lowering model does not cover (LEG 1 compares them row by row)
+        self.rich = self.r.random() < 0.6
+        self.special = self.rich and self.r.random() < 0.7     # string constants with escapes / quotes
         self.funcs = []     # dicts: name, ptypes, ret, effectful, heavy
         self.recs = []      # [name, [fields]]
 
@@ -49,7 +58,7 @@ class Gen:
         return f"{p}{self.n}"
 
     def types(self):
-        return ["int", "int", "int", "bool", "str"] if self.tier >= 2 else ["int"]
+        return ["int", "int", "int", "bool", "str", "str"] if self.tier >= 2 else ["int"]
 
     # ---- expressions.  env: name -> {"ty":…, "nn": bool (int known non-negative), "ro": bool}
     def lit(self, ty):
@@ -58,7 +67,32 @@ class Gen:
             return ["int", r.choice([0, 1, 2, 3, 4, 5, 7, 10, 12])]
         if ty == "bool":
             return ["bool", r.random() < 0.5]
+        if self.special and self.tier >= 2 and r.random() < 0.45:
+            return ["str", r.choice(SPECIAL_WORDS)]
         return ["str", r.choice(WORDS)]
+
+    # ---- literal-only expressions mixing several operators (constant folders of the frontends)
+    def lit_tree(self, nn):
+        """an int expression over 2-4 literals and >= 1 operators whose evaluation stays inside the common subset
+        (checked here by evaluating it); `nn`: the value must be non-negative"""
+        r = self.r
+        ops = ["add", "sub", "mul", "mod"] + (["div"] if self.use_div else [])
+        for _ in range(20):
+            n = r.randint(2, 4)
+            e = ["int", r.choice([0, 1, 2, 3, 4, 5, 7, 10, 12])]
+            leaves = [e]
+            for _ in range(n - 1):
+                leaf = ["int", r.choice([1, 2, 3, 4, 5, 7, 10, 12])]
+                op = r.choice(ops)
+                # grow to the right (a op b) or nest the new operator below the last leaf's parent at random
+                if r.random() < 0.5 or e[0] == "int":
+                    e = ["bin", op, e, leaf]
+                else:
+                    e = ["bin", e[1], e[2], ["bin", op, e[3], leaf]]
+            v = const_value(e)
+            if v is not None and (not nn or v >= 0) and abs(v) < 100000:
+                return e
+        return ["int", 3]
 
     def atom(self, env, ty, nn=False):
         vs = [x for x, i in env.items() if i["ty"] == ty and (not nn or i.get("nn"))]
@@ -72,6 +106,10 @@ class Gen:
             return self.atom(env, ty, nn)
         k = r.random()
         if ty == "int":
+            if self.rich and d <= 1 and r.random() < 0.09:
+                return self.lit_tree(nn)
+            if self.use_div and r.random() < 0.07:
+                return ["bin", "div", self.expr(env, "int", d + 1, True, calls), ["int", r.choice([2, 3, 5])]]
             if self.tier >= 3 and not nn and r.random() < 0.25:
                 e = self.elem(env, d, calls)
                 if e is not None:
@@ -95,6 +133,8 @@ class Gen:
                     return c
             return self.atom(env, "int", nn)
         if ty == "bool":
+            if self.rich and d <= 1 and r.random() < 0.06:
+                return ["bin", r.choice(CMPS), self.lit_tree(False), self.lit_tree(False)]
             if k < 0.55 or self.tier < 2:
                 return ["bin", r.choice(CMPS), self.expr(env, "int", d + 1, False, calls), self.expr(env, "int", d + 1, False, calls)]
             if k < 0.75:
@@ -112,6 +152,16 @@ class Gen:
                     return c
             return self.atom(env, "bool")
         # str
+        if self.concat and d <= 1 and r.random() < 0.10:
+            # 2-4 literal parts: folded by Java, a chain elsewhere
+            e = self.lit("str")
+            for _ in range(r.randint(1, 3)):
+                e = ["bin", "concat", e, self.lit("str")]
+            return e
+        if self.rich and self.concat and r.random() < 0.30:
+            it = self.interp(env)
+            if it is not None:
+                return it
         if k < 0.45 and self.concat:
             return ["bin", "concat", self.expr(env, "str", d + 1, False, calls), self.expr(env, "str", d + 2, False, calls)]
         if calls:
@@ -119,6 +169,25 @@ class Gen:
             if c is not None:
                 return c
         return self.atom(env, "str")
+
+    def interp(self, env):
+        """interpolated / template string: 2-4 parts, string variables and text (PHP "…$x…" / "…{$x}…", JS/TS `…${x}…`,
+        a `+` chain elsewhere); semantics: concatenation"""
+        r = self.r
+        vs = [x for x, i in env.items() if i["ty"] == "str"]
+        if not vs:
+            return None
+        texts = ["p", " q", "a b ", "-", ": ", "x1"] + (["a\nb", "say \"hi\" ", "it's ", "\t"] if self.special else [])
+        n = r.randint(2, 4)
+        parts = []
+        for i in range(n):
+            if (i % 2 == 0) == (r.random() < 0.8):
+                parts.append(["s", r.choice(texts)])
+            else:
+                parts.append(["v", r.choice(vs), r.random() < 0.5])
+        if not any(p[0] == "v" for p in parts):
+            parts[r.randrange(n)] = ["v", r.choice(vs), r.random() < 0.5]
+        return ["interp", parts]
 
     def elem(self, env, d, calls):
         arrs = [(x, i) for x, i in env.items() if i["ty"] == "arr"]
@@ -155,6 +224,13 @@ class Gen:
             body = [["out", self.atom(env, "int")]]
         return body
 
+    def no_growth(self, env, ty):
+        """inside a loop a string may not be built from string variables (`s = s + s` doubles it on every iteration — and
+        a frontend defect that makes the loop run on would make it explode); only `s += literal` grows strings there"""
+        if ty != "str" or "%loop" not in env:
+            return env
+        return {x: i for x, i in env.items() if i["ty"] != "str"}
+
     def writable(self, env, ty):
         return [x for x, i in env.items() if i["ty"] == ty and not i.get("ro")]
 
@@ -167,7 +243,7 @@ class Gen:
         if k < 0.22 or nvars < 2:
             ty = r.choice(self.types())
             nn = ty == "int" and r.random() < 0.5
-            e = self.expr(env, ty, 0, nn)
+            e = self.expr(self.no_growth(env, ty), ty, 0, nn, calls=not (ty == "str" and "%loop" in env))
             x = self.fresh()
             env[x] = {"ty": ty, "nn": nn}
             return [["decl", x, ty, e]]
@@ -176,9 +252,14 @@ class Gen:
             vs = self.writable(env, ty)
             if vs:
                 x = r.choice(vs)
-                return [["assign", x, self.expr(env, ty, 0, env[x].get("nn", False))]]
+                return [["assign", x, self.expr(self.no_growth(env, ty), ty, 0, env[x].get("nn", False),
+                                                calls=not (ty == "str" and "%loop" in env))]]
         if k < 0.47 and self.tier >= 3:
             return self.container_stmt(env)
+        if self.rich and (0.40 <= k < 0.47 or (self.tier < 3 and r.random() < 0.05)):
+            st = self.aug_stmt(env)
+            if st is not None:
+                return st
         if k < 0.62 and depth < 3:
             c = self.expr(env, "bool", 0)
             thn = self.block(dict(env), r.randint(1, 3), in_loop, ret_ty, depth + 1, loop_kind)
@@ -201,6 +282,29 @@ class Gen:
             return [["expr", ["call", f["name"], [self.expr(env, t, 1, t == "int") for t in f["ptypes"]]]]]
         return [["out", self.atom(env, "int")]]
 
+    def aug_rhs(self, env, target, nn):
+        """(op, rhs, style) of a compound assignment / increment of an int location"""
+        r = self.r
+        if r.random() < 0.4:
+            return (r.choice(["add", "sub"]) if not nn else "add"), ["int", 1], "inc"
+        op = r.choice(["add", "mul"] if nn else ["add", "sub", "mul"])
+        rhs = ["int", r.choice([0, 1, 2, 3])] if op == "mul" else self.expr(env, "int", 1, nn, calls=False)
+        return op, rhs, "aug"
+
+    def aug_stmt(self, env):
+        """`x += e`, `x++`, `s += "t"`: an assignment whose right-hand side starts with its own target, rendered compound"""
+        r = self.r
+        ints = self.writable(env, "int")
+        strs = self.writable(env, "str") if self.concat and self.tier >= 2 else []
+        if strs and (not ints or r.random() < 0.25):
+            x = r.choice(strs)
+            return [["assign", x, ["bin", "concat", ["var", x], self.lit("str")], "aug"]]
+        if not ints:
+            return None
+        x = r.choice(ints)
+        op, rhs, style = self.aug_rhs(env, x, env[x].get("nn", False))
+        return [["assign", x, ["bin", op, ["var", x], rhs], style]]
+
     def container_stmt(self, env):
         r = self.r
         arrs = [(x, i) for x, i in env.items() if i["ty"] == "arr"]
@@ -220,9 +324,18 @@ class Gen:
             return [st]
         if arrs and (not recs or r.random() < 0.6):
             x, i = r.choice(arrs)
+            if self.rich and r.random() < 0.35:
+                # a[i] op= e / a[i]++ : the index is a pure expression (it is read twice by the reference semantics)
+                ix = self.index(env, i["len"], 1, False)
+                op, rhs, style = self.aug_rhs(env, x, False)
+                return [["setidx", x, ix, ["bin", op, ["idx", x, ix], rhs], style]]
             return [["setidx", x, self.index(env, i["len"], 1, True), self.expr(env, "int", 1)]]
         x, i = r.choice(recs)
-        return [["setfld", x, r.choice(i["fields"]), self.expr(env, "int", 1)]]
+        f = r.choice(i["fields"])
+        if self.rich and r.random() < 0.35:
+            op, rhs, style = self.aug_rhs(env, x, False)
+            return [["setfld", x, f, ["bin", op, ["fld", x, f], rhs], style]]
+        return [["setfld", x, f, self.expr(env, "int", 1)]]
 
     def while_loop(self, env, ret_ty, depth):
         r = self.r
@@ -307,15 +420,97 @@ class Gen:
             for t in ptypes:
                 av.append(r.choice([0, 1, 2, 3, 5, 9]) if t == "int" else (r.random() < 0.5 if t == "bool" else r.choice(WORDS)))
             argvs.append(av)
-        return {"recs": self.recs, "fns": fns, "entry": "entry", "argvs": argvs, "tier": self.tier}
+        return {"recs": self.recs, "fns": fns, "entry": "entry", "argvs": argvs, "tier": self.tier,
+                "style": {"paren": self.paren}}
 
 
 def generate(seed, tier=3, size="normal"):
     return Gen(seed, tier, size).program()
 
 
+def const_value(e):
+    """value of a literal-only int expression under the reference semantics, None if it leaves the common subset"""
+    if e[0] == "int":
+        return e[1]
+    if e[0] != "bin":
+        return None
+    a, b = const_value(e[2]), const_value(e[3])
+    if a is None or b is None:
+        return None
+    op = e[1]
+    if op == "add":
+        return a + b
+    if op == "sub":
+        return a - b
+    if op == "mul":
+        return a * b
+    if op in ("div", "mod"):
+        if a < 0 or b <= 0:
+            return None
+        return a // b if op == "div" else a % b
+    return None
+
+
+def plain_expr(e):
+    """core expression without rendering hints: an interpolated string is the left-nested concatenation of its parts"""
+    k = e[0]
+    if k == "interp":
+        parts = [["str", p[1]] if p[0] == "s" else ["var", p[1]] for p in e[1]]
+        acc = parts[0]
+        for q in parts[1:]:
+            acc = ["bin", "concat", acc, q]
+        return acc
+    if k == "bin":
+        return ["bin", e[1], plain_expr(e[2]), plain_expr(e[3])]
+    if k == "un":
+        return ["un", e[1], plain_expr(e[2])]
+    if k in ("and", "or"):
+        return [k, plain_expr(e[1]), plain_expr(e[2])]
+    if k == "call":
+        return ["call", e[1], [plain_expr(a) for a in e[2]]]
+    if k == "idx":
+        return ["idx", e[1], plain_expr(e[2])]
+    return e
+
+
+def plain_stmts(stmts):
+    out = []
+    for s in stmts:
+        k = s[0]
+        if k == "decl":
+            out.append(["decl", s[1], s[2], plain_expr(s[3])])
+        elif k == "assign":
+            out.append(["assign", s[1], plain_expr(s[2])])
+        elif k == "newarr":
+            out.append(["newarr", s[1], [plain_expr(a) for a in s[2]]])
+        elif k == "newrec":
+            out.append(["newrec", s[1], s[2], [[f, plain_expr(a)] for f, a in s[3]]])
+        elif k == "setidx":
+            out.append(["setidx", s[1], plain_expr(s[2]), plain_expr(s[3])])
+        elif k == "setfld":
+            out.append(["setfld", s[1], s[2], plain_expr(s[3])])
+        elif k == "if":
+            out.append(["if", plain_expr(s[1]), plain_stmts(s[2]), plain_stmts(s[3])])
+        elif k == "while":
+            out.append(["while", plain_expr(s[1]), plain_stmts(s[2])])
+        elif k == "for":
+            out.append(["for", s[1], plain_expr(s[2]), plain_expr(s[3]), plain_stmts(s[4])])
+        elif k in ("ret", "out", "expr"):
+            out.append([k, plain_expr(s[1])])
+        else:
+            out.append(list(s))
+    return out
+
+
 def core_json(prog):
-    return {"recs": prog["recs"], "fns": prog["fns"]}
+    """the program as the Lean driver decodes it: rendering hints (compound-assignment / increment style of a statement,
+    interpolated strings, parenthesisation) removed"""
+    return {"recs": prog["recs"], "fns": [dict(f, body=plain_stmts(f["body"])) for f in prog["fns"]]}
+
+
+def stmt_style(s):
+    n = {"assign": 3, "setidx": 4, "setfld": 4}.get(s[0])
+    return s[n] if n is not None and len(s) > n else None
 
 
 # ============================================================================ inspection
@@ -346,6 +541,10 @@ def walk_exprs_of(e):
             yield from walk_exprs_of(a)
     elif k == "idx":
         yield from walk_exprs_of(e[2])
+    elif k == "interp":
+        for p in e[1]:
+            if p[0] == "v":
+                yield ["var", p[1]]
 
 
 def stmt_exprs(s):
@@ -408,6 +607,10 @@ def has_continue_in_while(stmts, in_while=False):
     return False
 
 
+def const_like(e):
+    return e[0] in ("int", "str", "bool") or (e[0] == "bin" and const_like(e[2]) and const_like(e[3]))
+
+
 def shapes(prog):
     """shapes the known-finding matchers refer to."""
     sh = set()
@@ -420,8 +623,20 @@ def shapes(prog):
         sh.add("record")
     if "newarr" in kinds:
         sh.add("array")
-    if any(e[0] == "bin" and e[1] == "concat" for e in all_exprs(prog)):
+    if any((e[0] == "bin" and e[1] == "concat") or e[0] == "interp" for e in all_exprs(prog)):
         sh.add("concat")
+    if any(e[0] == "interp" for e in all_exprs(prog)):
+        sh.add("interp")
+    if any(e[0] == "bin" and e[1] == "div" for e in all_exprs(prog)):
+        sh.add("div")
+    if any((e[0] == "str" and set(e[1]) & SPECIAL_CHARS) or
+           (e[0] == "interp" and any(p[0] == "s" and set(p[1]) & SPECIAL_CHARS for p in e[1])) for e in all_exprs(prog)):
+        sh.add("special_str")
+    if any(stmt_style(s) for f in prog["fns"] for s in walk_stmts(f["body"])):
+        sh.add("aug")
+    # a binary node over literal-only operands one of which is itself a binary node: multi-level constant folding
+    if any(e[0] == "bin" and const_like(e) and (e[2][0] == "bin" or e[3][0] == "bin") for e in all_exprs(prog)):
+        sh.add("lit_tree")
     # `x < (-5)`, `x < ((-5) + y)`: the shipped tree-sitter TypeScript grammar reads `<(-5)…` as type arguments
     def starts_with_neg_literal(e):
         while e[0] == "bin":
@@ -435,6 +650,8 @@ def shapes(prog):
 def supported(prog, lang):
     """can `prog` be rendered in `lang` inside the common subset?  (reason or None)"""
     sh = shapes(prog)
+    if lang in ("javascript", "typescript", "php") and "div" in sh:
+        return "no integer division operator in this language"
     if lang == "c" and "concat" in sh:
         return "C has no string concatenation operator"
     if lang == "c" and "record" in sh:
@@ -453,14 +670,18 @@ class Render:
     ind = "    "
     AND, OR, NOT = "&&", "||", "!"
     TRUE, FALSE = "true", "false"
-    OPS = {"add": "+", "sub": "-", "mul": "*", "mod": "%", "lt": "<", "le": "<=", "gt": ">", "ge": ">=",
+    OPS = {"add": "+", "sub": "-", "mul": "*", "div": "/", "mod": "%", "lt": "<", "le": "<=", "gt": ">", "ge": ">=",
            "eq": "==", "ne": "!=", "concat": "+"}
     OUT = "output"
+    # precedence levels shared by the seven languages for these operators
+    PREC = {"or": 1, "and": 2, "lt": 4, "le": 4, "gt": 4, "ge": 4, "eq": 4, "ne": 4,
+            "add": 6, "sub": 6, "concat": 6, "mul": 7, "div": 7, "mod": 7}
 
     def __init__(self, prog, sim=()):
         self.p = prog
         self.sim = set(sim)
         self.tmpn = 0
+        self.min_paren = (prog.get("style") or {}).get("paren") == "min"
 
     def v(self, x):
         return x
@@ -470,10 +691,31 @@ class Render:
         used = {s[2] for f in self.p["fns"] for s in walk_stmts(f["body"]) if s[0] == "newrec"}
         return [(R, fs) for R, fs in self.p["recs"] if R in used]
 
-    def strlit(self, s):
-        return '"' + s + '"'
+    def esc(self, s):
+        """the text of a string constant between double quotes"""
+        return s.replace("\\", "\\\\").replace('"', '\\"').replace("\n", "\\n").replace("\t", "\\t")
 
-    def e(self, x, top=False):
+    def strlit(self, s):
+        return '"' + self.esc(s) + '"'
+
+    def interp(self, parts):
+        """default: a `+` chain (left-nested), like the reference semantics reads it"""
+        return self.e(plain_expr(["interp", parts]), True)
+
+    def needs_paren(self, x, ctx):
+        """minimal parenthesisation: ctx = (precedence of the parent operator, side) or None at top level"""
+        if ctx is None:
+            return False
+        k = x[1] if x[0] == "bin" else x[0]
+        p, (pp, side) = self.PREC[k], ctx
+        if p < pp:
+            return True
+        if p == pp:
+            # comparisons do not associate (Python would chain them); equal precedence on the right needs parentheses
+            return p == 4 or side == "R"
+        return False
+
+    def e(self, x, top=False, ctx=None):
         k = x[0]
         if k == "int":
             return str(x[1])
@@ -483,16 +725,32 @@ class Render:
             return self.strlit(x[1])
         if k == "var":
             return self.v(x[1])
-        if k == "bin":
-            s = f"{self.e(x[2])} {self.OPS[x[1]]} {self.e(x[3])}"
+        if k == "interp":
+            t = self.interp(x[1])
+            return t if top or not (t.startswith('"') is False and " + " in t) else f"({t})"
+        if k == "bin" or k in ("and", "or"):
+            if k == "bin":
+                opk, l, r, tok = x[1], x[2], x[3], self.OPS[x[1]]
+            else:
+                opk, l, r, tok = k, x[1], x[2], (self.AND if k == "and" else self.OR)
+            if self.min_paren:
+                pr = self.PREC[opk]
+                s = f"{self.e(l, False, (pr, 'L'))} {tok} {self.e(r, False, (pr, 'R'))}"
+                return f"({s})" if self.needs_paren(x, ctx) else s
+            s = f"{self.e(l)} {tok} {self.e(r)}"
             return s if top else f"({s})"
         if k == "un":
             if x[1] == "neg":
+                if self.min_paren:
+                    a = x[2]
+                    inner = self.e(a, False, (8, "R"))
+                    if a[0] in ("bin", "and", "or", "interp") or (a[0] == "un" and a[1] == "neg"):
+                        inner = inner if inner.startswith("(") and a[0] != "un" else f"({inner})"
+                    t = "-" + inner
+                    # `a - -b` is fine with the space; as an operand of a tighter operator keep it bare too
+                    return t
                 return f"(-{self.e(x[2])})"
             return self.e_not(x[2])
-        if k in ("and", "or"):
-            s = f"{self.e(x[1])} {self.AND if k == 'and' else self.OR} {self.e(x[2])}"
-            return s if top else f"({s})"
         if k == "call":
             return f"{x[1]}({', '.join(self.e(a, True) for a in x[2])})"
         if k == "idx":
@@ -502,7 +760,24 @@ class Render:
         raise ValueError(x)
 
     def e_not(self, a):
+        if self.min_paren:
+            inner = self.e(a, True)
+            if a[0] in ("bin", "and", "or"):
+                inner = f"({inner})"
+            return f"{self.NOT}{inner}"
         return f"({self.NOT}{self.e(a)})"
+
+    AUG = {"add": "+=", "sub": "-=", "mul": "*=", "concat": "+="}
+
+    def compound(self, target, s, e, style, d):
+        """`target op= rhs` / `target++` for a statement whose right-hand side is `target op rhs`"""
+        op, rhs = e[1], e[3]
+        if style == "inc":
+            return self.inc(target, op, d)
+        return self.semi(f"{target} {self.AUG[op]} {self.e(rhs, True)}", d)
+
+    def inc(self, target, op, d):
+        return self.semi(target + ("++" if op == "add" else "--"), d)
 
     def fld(self, r, f):
         return f"{self.v(r)}.{f}"
@@ -522,6 +797,10 @@ class Render:
         I = self.ind * d
         if k == "decl":
             return self.decl(s[1], s[2], self.e(s[3], True), d)
+        if stmt_style(s):
+            target = self.v(s[1]) if k == "assign" else \
+                (f"{self.v(s[1])}[{self.e(s[2], True)}]" if k == "setidx" else self.fld(s[1], s[2]))
+            return self.compound(target, s, s[2] if k == "assign" else s[3], stmt_style(s), d)
         if k == "assign":
             return self.semi(f"{self.v(s[1])} = {self.e(s[2], True)}", d)
         if k == "newarr":
@@ -565,6 +844,10 @@ class Render:
 
 class RenderJS(Render):
     lang = "javascript"
+
+    def interp(self, parts):
+        t = "".join(self.esc(p[1]).replace('\\"', '"').replace("`", "\\`") if p[0] == "s" else "${" + p[1] + "}" for p in parts)
+        return "`" + t + "`"
 
     def decl(self, x, ty, e, d):
         return self.semi(f"let {x} = {e}", d)
@@ -707,6 +990,18 @@ class RenderC(Render):
 class RenderPHP(Render):
     lang = "php"
     OPS = dict(Render.OPS, concat=".")
+    AUG = dict(Render.AUG, concat=".=")
+
+    def interp(self, parts):
+        out = ""
+        for i, p in enumerate(parts):
+            if p[0] == "s":
+                out += self.esc(p[1])
+            else:
+                nxt = parts[i + 1] if i + 1 < len(parts) else None
+                glued = nxt is not None and nxt[0] == "s" and nxt[1][:1] and (nxt[1][0].isalnum() or nxt[1][0] in "_[-")
+                out += ("{$" + p[1] + "}") if (p[2] or glued) else ("$" + p[1])
+        return '"' + out + '"'
 
     def v(self, x):
         return "$" + x
@@ -745,14 +1040,21 @@ class RenderPy(Render):
     AND, OR, NOT = "and", "or", "not "
     TRUE, FALSE = "True", "False"
     OUT = "print"
+    OPS = dict(Render.OPS, div="//")
 
-    def e(self, x, top=False):
+    def inc(self, target, op, d):
+        return self.semi(f"{target} {'+=' if op == 'add' else '-='} 1", d)
+
+    def e(self, x, top=False, ctx=None):
         if x[0] in ("and", "or") and "strict_bool" in self.sim:
             return f"_s{x[0]}({self.e(x[1], True)}, {self.e(x[2], True)})"
-        return super().e(x, top)
+        return super().e(x, top, ctx)
 
     def e_not(self, a):
-        return f"(not {self.e(a)})"
+        inner = self.e(a, True)
+        if a[0] in ("bin", "and", "or"):
+            inner = f"({inner})"
+        return f"(not {inner})"
 
     def semi(self, text, d):
         return [self.ind * d + text]
